@@ -452,13 +452,13 @@ theorem take_take_le (p : P) (i j : Nat) (h : j ≤ i) : (p.take i).take j = p.t
   rw [List.take_take, Nat.min_eq_left h]
 
 /-- the walk of the guard meets a missing component: success -/
-theorem guardLoop_none (fs : FS) (p : P) (hd : NoDots p) (i : Nat) (hlt : i < p.length)
-    (hnone : fs.get (p.take i) = none) (hdirs : ∀ j, j < i → ∃ m, fs.get (p.take j) = some (.dir m)) :
+theorem guardLoop_none (fs : FS) (p : P) (hd : NoDots p) (i : Nat) (hlt : i < p.length) (j0 : Nat) (hj0 : j0 ≤ i)
+    (hnone : fs.get (p.take j0) = none) (hdirs : ∀ j, j < j0 → ∃ m, fs.get (p.take j) = some (.dir m)) :
     guardLoopR fs (p.take i) (p.drop i) = true := by
   rw [List.drop_eq_getElem_cons hlt]
   simp only [guardLoopR, cleanStep_take p hd i hlt]
   have : lstatR fs (p.take (i + 1)) = .err .enoent := by
-    apply lstatR_enoent fs _ (nodots_take p hd _) i (by rw [List.length_take]; omega)
+    apply lstatR_enoent fs _ (nodots_take p hd _) j0 (by rw [List.length_take]; omega)
     · rw [take_take_le p _ _ (by omega)]; exact hnone
     · intro j hj; rw [take_take_le p _ _ (by omega)]; exact hdirs j hj
   rw [this]
@@ -522,16 +522,53 @@ theorem guardLoop_dirs (fs : FS) (p : P) (hd : NoDots p) :
           · rw [hji]; exact ⟨m, hg⟩
           · exact hdirs j (by omega)
 
-/-- what the equivalence needs of the destination: the tree is well formed, `/` and every proper prefix of the root
-    are directories, the root itself is not a symbolic link (it may be missing, a directory or a file) -/
+/-- what the equivalence needs of the destination: the tree is well formed, `/` is a directory, no proper prefix of
+    the root is a file or a symbolic link (each is a directory or does not exist yet — `MkdirAll` creates those), the
+    root itself is not a symbolic link (it may be missing, a directory or a file) -/
 structure RInv (fs : FS) (root : P) : Prop where
   wf : WF fs
-  anc : AllDirs fs root
+  slashDir : ∃ m, fs.get [] = some (.dir m)
+  anc : ∀ j, j < root.length → fs.get (root.take j) = none ∨ ∃ m, fs.get (root.take j) = some (.dir m)
   rootNoLink : ∀ t, fs.get root ≠ some (.symlink t)
 
-theorem RInv.slash {fs : FS} {root : P} (h : RInv fs root) (hroot : root ≠ []) : ∃ m, fs.get [] = some (.dir m) := by
-  have := h.anc 0 (List.length_pos_iff.mpr hroot)
-  simpa using this
+theorem RInv.slash {fs : FS} {root : P} (h : RInv fs root) (_hroot : root ≠ []) : ∃ m, fs.get [] = some (.dir m) :=
+  h.slashDir
+
+/-- the first missing prefix -/
+theorem first_none (fs : FS) (p : P) (n : Nat)
+    (hnd : ∀ j, j < n → fs.get (p.take j) = none ∨ ∃ m, fs.get (p.take j) = some (.dir m))
+    (hex : ∃ j, j < n ∧ fs.get (p.take j) = none) :
+    ∃ j0, j0 < n ∧ fs.get (p.take j0) = none ∧ ∀ j, j < j0 → ∃ m, fs.get (p.take j) = some (.dir m) := by
+  induction n with
+  | zero => obtain ⟨j, h, _⟩ := hex; omega
+  | succ k ih =>
+    by_cases hex' : ∃ j, j < k ∧ fs.get (p.take j) = none
+    · obtain ⟨j0, h1, h2, h3⟩ := ih (fun j hj => hnd j (by omega)) hex'
+      exact ⟨j0, by omega, h2, h3⟩
+    · obtain ⟨j, hj, hn⟩ := hex
+      have hjk : j = k := by
+        by_cases h : j = k
+        · exact h
+        · exact absurd ⟨j, by omega, hn⟩ hex'
+      subst hjk
+      refine ⟨j, by omega, hn, ?_⟩
+      intro i hi
+      rcases hnd i (by omega) with h | h
+      · exact absurd ⟨i, hi, h⟩ hex'
+      · exact h
+
+theorem not_allDirs_first (fs : FS) (root : P)
+    (hanc : ∀ j, j < root.length → fs.get (root.take j) = none ∨ ∃ m, fs.get (root.take j) = some (.dir m))
+    (hna : ¬ AllDirs fs root) :
+    ∃ j0, j0 < root.length ∧ fs.get (root.take j0) = none ∧ ∀ j, j < j0 → ∃ m, fs.get (root.take j) = some (.dir m) := by
+  apply first_none fs root root.length hanc
+  apply Classical.byContradiction
+  intro hno
+  apply hna
+  intro j hj
+  rcases hanc j hj with h | h
+  · exact absurd ⟨j, hj, h⟩ hno
+  · exact h
 
 theorem prefix_take_eq {root p : P} (hp : root <+: p) : p.take root.length = root := by
   obtain ⟨t, rfl⟩ := hp; simp
@@ -541,55 +578,86 @@ theorem guardR_eq (fs : FS) (root p : P) (hinv : RInv fs root) (hroot : root ≠
     ensureNoSymlinksR fs root p = ensureNoSymlinks fs root p := by
   have htake := prefix_take_eq hp
   have hdr : NoDots root := by rw [← htake]; exact nodots_take p hd _
+  have hrl : root.length ≤ p.length := hp.length_le
   unfold ensureNoSymlinksR ensureNoSymlinks
-  by_cases hpr : p = root
-  · rw [if_pos hpr, if_pos hpr]
-    have hcs : cleanStep root [46] = root := by unfold cleanStep; rw [if_pos (Or.inr rfl)]
-    simp only [guardLoopR, hcs]
-    rw [lstatR_lex fs root hroot hdr hinv.anc]
-    unfold lexRes
-    cases hg : fs.get root with
-    | none => rfl
-    | some n => cases n <;> rfl
-  · rw [if_neg hpr, if_neg hpr]
-    have hlen : root.length < p.length := prefix_lt hp (fun e => hpr e.symm)
-    have hdirs : ∀ j, j < root.length → ∃ m, fs.get (p.take j) = some (.dir m) := by
+  by_cases hall : AllDirs fs root
+  · -- every ancestor of the destination exists
+    by_cases hpr : p = root
+    · rw [if_pos hpr, if_pos hpr]
+      have hcs : cleanStep root [46] = root := by unfold cleanStep; rw [if_pos (Or.inr rfl)]
+      simp only [guardLoopR, hcs]
+      rw [lstatR_lex fs root hroot hdr hall]
+      unfold lexRes
+      cases hg : fs.get root with
+      | none => rfl
+      | some n => cases n <;> rfl
+    · rw [if_neg hpr, if_neg hpr]
+      have hlen : root.length < p.length := prefix_lt hp (fun e => hpr e.symm)
+      have hdirs : ∀ j, j < root.length → ∃ m, fs.get (p.take j) = some (.dir m) := by
+        intro j hj
+        have := hall j hj
+        rw [← htake, take_take_le p _ _ (by omega)] at this
+        exact this
+      have hloop : guardLoopR fs root (p.drop root.length) = guardLoopR fs (p.take root.length) (p.drop root.length) := by
+        rw [htake]
+      rw [hloop]
+      cases hg : fs.get root with
+      | none =>
+        have hg' : fs.get (p.take root.length) = none := by rw [htake]; exact hg
+        rw [guardLoop_none fs p hd _ hlen root.length (Nat.le_refl _) hg' hdirs]
+        simp only
+        have hnext : fs.get (p.take (root.length + 1)) = none := by
+          have hr1 : 1 ≤ root.length := List.length_pos_iff.mpr hroot
+          exact none_below fs hinv.wf p root.length hr1 hg' _ (by omega) (by omega)
+        rw [noSymFrom]
+        rw [if_neg (by omega), hnext]
+      | some n =>
+        cases n with
+        | file k =>
+          have hg' : fs.get (p.take root.length) = some (.file k) := by rw [htake]; exact hg
+          rw [guardLoop_file fs p hd _ hlen k hg' hdirs]
+        | symlink t => exact absurd hg (hinv.rootNoLink t)
+        | dir m =>
+          simp only
+          apply guardLoop_dirs fs p hd (p.length + 1) root.length (by omega) (by omega)
+          intro j hj
+          by_cases hjr : j = root.length
+          · rw [hjr, htake]; exact ⟨m, hg⟩
+          · exact hdirs j (by omega)
+  · -- some ancestor of the destination does not exist yet: neither does anything below it; both guards succeed
+    obtain ⟨j0, hj0, hnone, hdirs⟩ := not_allDirs_first fs root hinv.anc hall
+    have hj1 : 1 ≤ j0 := by
+      rcases Nat.eq_zero_or_pos j0 with h | h
+      · subst h
+        obtain ⟨m, hm⟩ := hinv.slashDir
+        simp only [List.take_zero] at hnone
+        rw [hm] at hnone; cases hnone
+      · exact h
+    have hrootnone : fs.get root = none := by
+      have := none_below fs hinv.wf root j0 hj1 hnone root.length (by omega) (Nat.le_refl _)
+      rwa [List.take_length] at this
+    have hnoneP : fs.get (p.take j0) = none := by
+      rw [← htake, take_take_le p _ _ (by omega)] at hnone; exact hnone
+    have hdirsP : ∀ j, j < j0 → ∃ m, fs.get (p.take j) = some (.dir m) := by
       intro j hj
-      have := hinv.anc j hj
+      have := hdirs j hj
       rw [← htake, take_take_le p _ _ (by omega)] at this
       exact this
-    have hloop : guardLoopR fs root (p.drop root.length) = guardLoopR fs (p.take root.length) (p.drop root.length) := by
-      rw [htake]
-    rw [hloop]
-    cases hg : fs.get root with
-    | none =>
-      have hg' : fs.get (p.take root.length) = none := by rw [htake]; exact hg
-      rw [guardLoop_none fs p hd _ hlen hg' hdirs]
+    by_cases hpr : p = root
+    · rw [if_pos hpr, if_pos hpr, hrootnone]
+      have hcs : cleanStep root [46] = root := by unfold cleanStep; rw [if_pos (Or.inr rfl)]
+      simp only [guardLoopR, hcs]
+      rw [lstatR_enoent fs root hdr j0 hj0 hnone hdirs]
+    · rw [if_neg hpr, if_neg hpr, hrootnone]
+      have hlen : root.length < p.length := prefix_lt hp (fun e => hpr e.symm)
+      have hloop : guardLoopR fs root (p.drop root.length) = guardLoopR fs (p.take root.length) (p.drop root.length) := by
+        rw [htake]
+      rw [hloop, guardLoop_none fs p hd _ hlen j0 (by omega) hnoneP hdirsP]
       simp only
-      have hnext : fs.get (p.take (root.length + 1)) = none := by
-        cases hx : fs.get (p.take (root.length + 1)) with
-        | none => rfl
-        | some n =>
-          have hr1 : 1 ≤ root.length := List.length_pos_iff.mpr hroot
-          obtain ⟨m, hm⟩ := hinv.wf _ (by rw [hx]; rfl) (by rw [List.length_take]; omega)
-          rw [take_dropLast p _ (by omega) (by omega)] at hm
-          simp only [Nat.add_sub_cancel] at hm
-          rw [hg'] at hm; cases hm
+      have hnext : fs.get (p.take (root.length + 1)) = none :=
+        none_below fs hinv.wf p j0 hj1 hnoneP _ (by omega) (by omega)
       rw [noSymFrom]
       rw [if_neg (by omega), hnext]
-    | some n =>
-      cases n with
-      | file k =>
-        have hg' : fs.get (p.take root.length) = some (.file k) := by rw [htake]; exact hg
-        rw [guardLoop_file fs p hd _ hlen k hg' hdirs]
-      | symlink t => exact absurd hg (hinv.rootNoLink t)
-      | dir m =>
-        simp only
-        apply guardLoop_dirs fs p hd (p.length + 1) root.length (by omega) (by omega)
-        intro j hj
-        by_cases hjr : j = root.length
-        · rw [hjr, htake]; exact ⟨m, hg⟩
-        · exact hdirs j (by omega)
 
 /-! ### the loop bodies -/
 
@@ -600,9 +668,12 @@ theorem guard_nosym (fs : FS) (root p : P) (hinv : RInv fs root) (hp : root <+: 
   intro j h1 h2 t
   have htake := prefix_take_eq hp
   by_cases hj : j < root.length
-  · obtain ⟨m, hm⟩ := hinv.anc j hj
-    rw [← htake, take_take_le p _ _ (by omega)] at hm
-    rw [hm]; exact fun h => by cases h
+  · have hrl : root.length ≤ p.length := hp.length_le
+    rcases hinv.anc j hj with hm | ⟨m, hm⟩
+    · rw [← htake, take_take_le p _ _ (by omega)] at hm
+      rw [hm]; exact fun h => by cases h
+    · rw [← htake, take_take_le p _ _ (by omega)] at hm
+      rw [hm]; exact fun h => by cases h
   · by_cases hj' : j = root.length
     · rw [hj', htake]; exact hinv.rootNoLink t
     · exact (ensureNoSymlinks_ok fs hinv.wf root p hg).1 j (by omega) h2 t
@@ -610,10 +681,17 @@ theorem guard_nosym (fs : FS) (root p : P) (hinv : RInv fs root) (hp : root <+: 
 theorem RInv.mkdir {fs fs1 : FS} {root : P} (hinv : RInv fs root) (q : P) (mode : Nat)
     (h1 : mkdirAll fs q mode = some fs1) : RInv fs1 root := by
   have hsys := (mkdirAll_self_sys fs fs1 q mode h1).1
-  refine ⟨hsys.wf hinv.wf, ?_, ?_⟩
-  · intro j hj
-    obtain ⟨m, hm⟩ := hinv.anc j hj
+  refine ⟨hsys.wf hinv.wf, ?_, ?_, ?_⟩
+  · obtain ⟨m, hm⟩ := hinv.slashDir
     exact ⟨m, hsys.mono _ _ hm⟩
+  · intro j hj
+    rcases hinv.anc j hj with hm | ⟨m, hm⟩
+    · rw [mkdirAll_exact fs fs1 q mode h1, hm]
+      simp only
+      split
+      · exact Or.inr ⟨_, rfl⟩
+      · exact Or.inl rfl
+    · exact Or.inr ⟨m, hsys.mono _ _ hm⟩
   · intro t h
     exact hinv.rootNoLink t (((mkdirAll_sameLeaves fs fs1 q mode h1) root).1 t |>.mp h)
 
